@@ -238,6 +238,8 @@ class Shadow:
                 code = cmd.result.code
                 ro = bool(code and code[0] == b'READ-ONLY')
                 sel = cmd.extra['sel']
+                # whatever was selected before ended with this command
+                self._end_selection()
                 self.selected = {
                     'mailbox': cmd.action.get('mailbox'),
                     'readonly': ro, 'examine': kind == 'examine',
@@ -257,6 +259,8 @@ class Shadow:
             elif cond == 'BAD' and self._saved is not None:
                 self.selected, self.slots, self.recent_count = self._saved
             else:
+                # a failed SELECT/EXAMINE leaves nothing selected
+                self._end_selection()
                 self.selected = None
                 self.slots = []
             self._saved = None
